@@ -390,6 +390,46 @@ func checkC13(c *Ctx) {
 		}
 	}
 
+	// ---- C13-FLUSHTOP: terminating the lexer's pending atom "as a newline would" is right only where the
+	// available text may really be the whole text: at nesting depth 0. Inside an open bracket the rest of the
+	// atom may be in the next piece; flushing there cuts "(setq lst %al" + "pha beta)" into (quote al) pha.
+	if fl := c.fn("Lexer.flushAtEnd"); fl != nil {
+		nF := 0
+		for _, g := range c.zygoFuncs() {
+			for _, site := range callsOf(g, fl) {
+				nF++
+				okTop := false
+				why := ""
+				hasDepth := false
+				for _, p := range g.Params {
+					if p.Name() == "depth" {
+						hasDepth = true
+					}
+				}
+				if hasDepth {
+					okTop = atDepthZeroSite(site)
+					why = "the routine is entered at any nesting depth and the flush is not under `depth == 0`"
+				} else {
+					// the top-level loop: it parses with the constant depth 0 and flushes when that returned the end marker
+					pe := c.fn("Parser.ParseExpression")
+					for _, ps := range callsOf(g, pe) {
+						args := ps.Common().Args
+						if k, ok := constIntOf(args[len(args)-1]); ok && k == 0 {
+							okTop = true
+						}
+					}
+					why = "the routine does not parse at the constant depth 0"
+				}
+				c.check(okTop, "C13-FLUSHTOP", fnName(g), "pending atom terminated only at depth 0", site.Pos(),
+					"the lexer's pending atom is flushed only where nothing is open",
+					"the lexer's pending atom is terminated although a bracket may be open ("+why+"): when a piece of text ends inside an atom, the atom is cut in two and its remainder becomes a separate element, so the pieces no longer read as the whole")
+			}
+		}
+		if nF < 2 {
+			c.undecided("C13-FLUSHTOP", "Lexer.flushAtEnd", "callers", fl.Pos(), fmt.Sprintf("only %d calls of flushAtEnd found (2 confirmed by reading)", nF))
+		}
+	}
+
 	// ---- C13-OPERAND: a nested expression is read only by a routine that runs the more-input protocol
 	// itself. ParseExpression answers a dry token stream with the end marker; a caller that has not
 	// first waited for a token (the prefix operators % ^ ~ ~@ used to) wraps that marker as if it
